@@ -2,6 +2,9 @@ package main
 
 import (
 	"fmt"
+	"github.com/superfly/litefs/verifharness/sim"
+	"os"
+	"time"
 
 	"github.com/superfly/litefs/verifharness/core"
 )
@@ -173,5 +176,85 @@ func runLeadPosZero(cs cfgSpec, donor []svcFile) (out outcome, facts map[string]
 	r = w.doSync(syncPlan{})
 	facts["pass_after_first_commit"] = fmt.Sprintf("relation=%s calls=%q restored=%v primary %s (the first commit is given up)", r.Rel, callShape(r.Calls), r.Restored, r.Post.Pos)
 	w.fails = append(fails, w.fails...)
+	return
+}
+
+// runRestoreWithOpenTx: a sync pass that has to adopt the service's snapshot arrives while an application
+// connection has a write transaction open (journal created, a page written, RESERVED held). The restore has
+// to wait for that transaction like any other writer of the database; whatever the order in which the two
+// finish, the primary's log is one chain ending at its position afterwards, the database is the image at that
+// position, and a restart on the same directory finds the same.
+func runRestoreWithOpenTx(cs cfgSpec, donor []svcFile) (out outcome) {
+	w, err := openWorld(cs.config(), donor)
+	if err != nil {
+		core.Infra("open node: %v", err)
+	}
+	defer w.close()
+	defer finish(w, &out)
+	w.afterStep("open", w.observe(), true)
+	w.doCommit(1)
+	w.doCommit(2)
+	w.doSync(syncPlan{})
+	w.applyFault("fork", 3, false) // the service is ahead on another history: the next pass restores
+	// the open transaction
+	pg := w.pg
+	pl := sim.Plan{Kind: "j", Ns: 3, M: []int{1, 2}, Out: "commit", Fin: "DELETE", V: 77}
+	if err := firstErrOf(func() error { return pg.BeginJ(pl) }, pg.JCreate, pg.JSync, func() error { return pg.JPage(1) }); err != nil {
+		w.failf("C14.harness", "open-tx", map[string]any{"error": err.Error()})
+		return
+	}
+	done := make(chan syncResult, 1)
+	go func() { done <- w.doSync(syncPlan{}) }()
+	// the pass has asked the service for its position and is now waiting for the write lock
+	for t0 := time.Now(); time.Since(t0) < 5*time.Second; time.Sleep(time.Millisecond) {
+		w.wc.mu.Lock()
+		n := len(w.wc.calls)
+		w.wc.mu.Unlock()
+		if n > 0 {
+			break
+		}
+	}
+	time.Sleep(150 * time.Millisecond)
+	cerr := firstErrOf(func() error { return pg.JPage(2) }, pg.JFinal)
+	pg.EndJ()
+	var r syncResult
+	select {
+	case r = <-done:
+	case <-time.After(60 * time.Second):
+		w.failf("C14.no-hang", "restore-with-open-tx/sync-hangs", map[string]any{"commit_error": fmt.Sprint(cerr)})
+		return
+	}
+	w.note("restore with open transaction: commit err=%v, pass relation=%s restored=%v err=%v, primary %s", cerr, r.Rel, r.Restored, r.Err, r.Post.Pos)
+	if len(w.fails) > 0 {
+		return
+	}
+	o := w.observe()
+	w.evals += 2
+	if probs := sim.ChainProblems(w.node.DBDir(dbName), uint64(o.Pos.TXID), uint64(o.Pos.PostApplyChecksum)); len(probs) > 0 {
+		w.failf("C14.log-is-one-chain-after-restore", "restore-with-open-tx/chain", map[string]any{"problems": probs, "files": localNames(o), "position": o.Pos.String(), "commit_error": fmt.Sprint(cerr)})
+		return
+	}
+	// a restart on the same directory
+	cp := core.Scratch("c14-reopen")
+	defer os.RemoveAll(cp)
+	if err := sim.CopyDir(w.node.Dir, cp); err != nil {
+		core.Infra("copy: %v", err)
+	}
+	var n2 *sim.Node
+	var oerr error
+	if p := core.Try(func() { n2, oerr = sim.OpenNode(sim.NodeOpts{Dir: cp, Primary: true}) }); p != nil || oerr != nil {
+		w.failf("C14.restart-after-restore", "restore-with-open-tx/restart-fails", map[string]any{"error": fmt.Sprint(oerr), "panic": fmt.Sprint(p), "files": localNames(o), "position": o.Pos.String()})
+		return
+	}
+	defer n2.Close()
+	if db := n2.Store.DB(dbName); db == nil || db.Pos() != o.Pos {
+		w.failf("C14.restart-after-restore", "restore-with-open-tx/restart-position", map[string]any{"before": o.Pos.String(), "files": localNames(o)})
+	}
+	// and the passes converge as usual
+	for n := 0; len(w.fails) == 0 && w.idle.n < bound(w.idle.k) && n < 4; n++ {
+		w.pg = sim.NewPager(w.conn, w.cfg.Layout, w.cfg.Pager)
+		w.resyncPager()
+		w.doSync(syncPlan{})
+	}
 	return
 }
